@@ -31,6 +31,28 @@ impl<'a, T: Clone> SeqIter<&'a T> {
 }
 
 // =====================================================================================================
+// A-iter / R12 for the stub of update_train_formation in this slice: the parameter `moved_nodes: impl Iterator<Item =
+// NodeIdx>` is retyped to `impl NodeItems` = ANY iterator over NodeIdx; `moved_nodes@` is the sequence of the items it will
+// yield (vstd's prophetic `IteratorSpec::remaining`; for the shim iterator SeqIter that is its view, see env/seqiter.vs).
+// Same assumption as R12 with SeqIter<NodeIdx> ("the caller's iterator is its sequence of items"), but a call site that
+// hands in a std iterator (`Vec::into_iter`) still type-checks.  The trait lives in a module of its own and is NOT imported:
+// its `view` must not compete with `View::view` of SeqIter.
+// =====================================================================================================
+pub mod node_items {
+    use super::*;
+    use vstd::prelude::*;
+    use vstd::std_specs::iter::IteratorSpec;
+    pub trait NodeItems {
+        #[verifier::prophetic]
+        spec fn view(&self) -> Seq<NodeIdx>;
+    }
+    impl<I: Iterator<Item = NodeIdx>> NodeItems for I {
+        #[verifier::prophetic]
+        open spec fn view(&self) -> Seq<NodeIdx> { self.remaining() }
+    }
+}
+
+// =====================================================================================================
 // vocabulary copied from env/sched_guard_shim.vs
 // =====================================================================================================
 impl Network {
@@ -494,18 +516,21 @@ pub proof fn lemma_or_cut(s: &Schedule, segment: Segment, p: VehicleIdx, rcv: Ve
 pub proof fn lemma_or_guard(s: &Schedule, segment: Segment, p: VehicleIdx, rcv: VehicleIdx)
     requires
         s.or_pre(segment, p, rcv), s.or_removes(segment, p),
-        // the postcondition of check_receiver_type_compatibility for the answer `true`
-        s.vehicles@.contains_key(rcv) && !(s.vehicles@.contains_key(p) && s.type_of(p) == s.type_of(rcv))
+    ensures
+        // the postcondition of check_receiver_type_compatibility for the answer `true` (antecedent, see above)
+        (s.vehicles@.contains_key(rcv) && !(s.vehicles@.contains_key(p) && s.type_of(p) == s.type_of(rcv))
             ==> forall|i: int, j: int, q: int| #[trigger] Schedule::seg_at(&s.sp_tour_of(p), segment, i, j) && i <= q <= j
-                ==> s.network.sp_compatible(#[trigger] s.sp_tour_of(p).nodes@[q], s.type_of(rcv)),
-    ensures s.or_compatible(segment, p, rcv),
+                ==> s.network.sp_compatible(#[trigger] s.sp_tour_of(p).nodes@[q], s.type_of(rcv)))
+        ==> s.or_compatible(segment, p, rcv),
 {
     lemma_or_cut(s, segment, p, rcv);
     let tp = s.sp_tour_of(p);
     let lo = s.or_lo(segment, p);
     let hi = s.or_hi(segment, p);
     let m = s.or_moved(segment, p);
-    if s.sp_is_vehicle(rcv) && !(s.sp_is_vehicle(p) && s.type_of(p) == s.type_of(rcv)) {
+    if s.sp_is_vehicle(rcv) && !(s.sp_is_vehicle(p) && s.type_of(p) == s.type_of(rcv))
+        && (forall|i: int, j: int, q: int| #[trigger] Schedule::seg_at(&s.sp_tour_of(p), segment, i, j) && i <= q <= j
+                ==> s.network.sp_compatible(#[trigger] s.sp_tour_of(p).nodes@[q], s.type_of(rcv))) {
         assert forall|k: int| 0 <= k < m.len() implies s.network.sp_compatible(#[trigger] m[k], s.type_of(rcv)) by {
             assert(Schedule::seg_at(&tp, segment, lo, hi) && lo <= lo + k <= hi);
             assert(m[k] == tp.nodes@[lo + k]);
